@@ -63,6 +63,15 @@ def main():
             meta["detected_by"] = [c for c, d in det.items() if d["exit"] == 1 and d["violation_lines"] > 0]
     finally:
         shutil.rmtree(scr, ignore_errors=True)
+    fe = os.path.join(VERIF, "seeded", "first_eval.json")
+    if os.path.exists(fe):
+        first = json.load(open(fe))
+        if name in first:
+            meta["first_evaluation_detected_by"] = first[name]
+        elif "detected_by" in meta:
+            first[name] = meta["detected_by"]
+            meta["first_evaluation_detected_by"] = meta["detected_by"]
+            json.dump(first, open(fe, "w"), indent=1)
     notes = os.path.join(dst, "notes.md")
     if os.path.exists(notes):
         meta["needs_to_manifest"] = open(notes).read()[:1500]
